@@ -3,5 +3,5 @@ CONSTANTS
   MaxStr = 5
   AsIsD10 = FALSE
   AsIsD12 = FALSE
-INVARIANT RoundTrip
+INVARIANTS RoundTrip EmitCase
 CHECK_DEADLOCK FALSE
